@@ -60,19 +60,30 @@ def _mentions(expr, var):
     return False
 
 
-def h14a(c, n_streams=2, lengths=(1, 2), grouping="choose", raise_in_callback=False, cooldown=False):
+def h14a(c, n_streams=2, lengths=(1, 2), grouping="choose", raise_in_callback=False, cooldown=False, orders=False, closing=False):
     """real FlumineSimulation.run() over stub streams with symbolic publish times (non-decreasing per stream, ties across
     streams allowed), symbolic event grouping and a symbolic wall clock: chronological, complete, exactly once, clock = publish
     time, wall clock never observed, real clock restored"""
     wall = c.time_us("wall_clock", 1_600_000_000 * 10**6, 1_900_000_000 * 10**6)
     seen = []
     raise_at = c.choose("callback_raises_at", [None, 0, 1]) if raise_in_callback else None
-    with cm.config_set(simulated=True, raise_errors=bool(raise_in_callback)):
+    with cm.config_set(simulated=True, raise_errors=bool(raise_in_callback), place_latency=0.0):
 
         placed = []
+        sent = {}  # market id -> (order, index of the update it was requested on)
+        seen_closed = []
+
+        def pcm(strategy, market, market_book):
+            seen_closed.append((market.market_id, market_book, _dt.datetime.utcnow(), market.date_time_closed))
 
         def pmb(strategy, market, market_book):
             seen.append((market.market_id, market_book, _dt.datetime.utcnow(), strategy))
+            if orders and market.market_id not in sent:
+                # one request per market, made on its first update: it falls due on the market's next update (also a closing one, also
+                # when another market of the group ends in between)
+                o = cm.mk_limit(strategy, "BACK", 2.0, 2.0, market_id=market.market_id)
+                market.place_order(o, force=True)
+                sent[market.market_id] = (o, len([x for x in seen if x[0] == market.market_id]) - 1)
             if cooldown:
                 # a strategy with a 5 s placement cool-down tries an order on every update: what is accepted may only depend
                 # on the recorded publish times
@@ -82,10 +93,11 @@ def h14a(c, n_streams=2, lengths=(1, 2), grouping="choose", raise_in_callback=Fa
             if raise_at is not None and len(seen) - 1 == raise_at:
                 raise RuntimeError("strategy bug")
 
-        fl, (client,), (strategy,) = cm.new_sim(hooks=dict(process_market_book=pmb))
+        fl, (client,), (strategy,) = cm.new_sim(hooks=dict(process_market_book=pmb, process_closed_market=pcm))
         grouped = c.choose("event_processing", [True, False]) if grouping == "choose" else grouping
         streams = StubStreams()
         all_books = []
+        closed_books = []
         for s in range(n_streams):
             L = c.choose("stream%d_length" % s, list(lengths))
             prev = None
@@ -96,6 +108,11 @@ def h14a(c, n_streams=2, lengths=(1, 2), grouping="choose", raise_in_callback=Fa
                     c.assume(tms >= prev)
                 prev = tms
                 b = cm.book([cm.runner(1)], market_id="1.10000000%d" % (s + 1), version=1 + j, pt=t, pt_ms=tms, stream_id=cm.STREAM_ID)
+                if closing and j == L - 1 and j > 0 and c.choose("stream%d_ends_closed" % s, [False, True]):
+                    b.status = "CLOSED"
+                    b.runners[0].status = "WINNER"
+                    b.market_definition = cm.market_definition(status="CLOSED")
+                    closed_books.append(b)
                 books.append(b)
                 all_books.append((s, j, b, tms))
             same_group = grouped and (s == 0 or c.choose("stream%d_same_group" % s, [True, False]))
@@ -121,8 +138,22 @@ def h14a(c, n_streams=2, lengths=(1, 2), grouping="choose", raise_in_callback=Fa
         if escaped is not None:
             c.cover("run-ended-with-exception")
             return
-        c.ob("every-update-delivered-exactly-once", len(seen) == len(all_books) and all(len([1 for x in seen if x[1] is b]) == 1 for (_, _, b, _) in all_books),
-             delivered=len(seen), expected=len(all_books))
+        open_books = [x for x in all_books if not any(x[2] is b for b in closed_books)]
+        c.ob("every-update-delivered-exactly-once", len(seen) == len(open_books) and all(len([1 for x in seen if x[1] is b]) == 1 for (_, _, b, _) in open_books),
+             delivered=len(seen), expected=len(open_books))
+        c.ob("every-closing-update-delivered-exactly-once", len(seen_closed) == len(closed_books) and all(len([1 for x in seen_closed if x[1] is b]) == 1 for b in closed_books))
+        for x in seen_closed:
+            c.ob("closing-update.clock=publish-time", x[2] is x[1].publish_time or c.is_true(x[2] == x[1].publish_time))
+            c.ob("closing-update.closed-at=publish-time", x[3] is x[1].publish_time or c.is_true(x[3] == x[1].publish_time))
+            c.cover("closing-update")
+        for mid, (o, j0) in sent.items():
+            t_req = [tms for (s2, j, b, tms) in all_books if b.market_id == mid and j == j0][0]
+            later = [j for (s2, j, b, tms) in all_books if b.market_id == mid and j > j0 and c.is_true(tms > t_req)]
+            if later:
+                # the market had an update strictly later in time: the request fell due on it (zero latency) and took effect
+                c.ob("request-takes-effect-at-the-next-update-of-its-market", o.bet_id is not None and o.status != OrderStatus.PENDING, status=o.status.name,
+                     grouped=bool(grouped))
+                c.cover("request-executed")
         # each stream's own order preserved
         for s in range(n_streams):
             idx = [i for i, x in enumerate(seen) for (s2, j, b, _) in all_books if s2 == s and x[1] is b]
@@ -236,7 +267,18 @@ def h14f(c, U=3):
     h07(_Only(c, ("strategy-clock=publish-time", "clock-at-execution=processing-update", "executed-at-first-due-update", "no-exception")), U=U, R=1, real_time_error=True)
 
 
+def h14g(c):
+    """a strategy only shares a historical stream with another one when their listener filters mean the same (C13 harness): otherwise
+    updates that pass its own filters would be dropped by the other strategy's filter"""
+    from .c13 import h13c
+    h13c(c)
+
+
 HARNESSES = [
+    Harness("H14h", h14a, quick=dict(n_streams=2, lengths=(2, 3), orders=True, closing=True), thorough=dict(n_streams=2, lengths=(2, 3, 4), orders=True, closing=True),
+            pattern="P1 + P3 (requests in flight across stream ends and closing updates)", requires=["run", "event-group", "closing-update", "request-executed"],
+            selfcheck=False),
+    Harness("H14g", h14g, pattern="exhaustive choice product (structural)", requires=["separate", "may-share"], selfcheck=False),
     Harness("H14f", h14f, quick=dict(U=3), thorough=dict(U=4), pattern="P3 with symbolic time", requires=["run", "executed"], selfcheck=False),
     Harness("H14a", h14a, quick=dict(n_streams=2, lengths=(1, 3)), thorough=dict(n_streams=3, lengths=(1, 2, 3)), pattern="P1 + P4 (wall clock)",
             requires=["run", "event-group"], outside=OUT, max_paths=(400000, 4000000), wall_s=(300, 3000), selfcheck=False),
